@@ -53,7 +53,7 @@ SField(C, F, rel, rt, entry, path, parentId) ==
   IF ~args.ok THEN SCaught(fdef.type, me, SFailAt(me, entry[2]))
   ELSE IF fdef.res = "R" /\ me \notin rel THEN SBlocked({me})
   ELSE LET raw == RawAt(C, fdef.type, me, parentId, fname, args.v)
-           r   == SComplete(C, F, rel, fdef.type, raw, me, entry[2])
+           r   == SComplete(SetFK(C, rt \o "." \o fname), F, rel, fdef.type, raw, me, entry[2])
            mine == IF fdef.res = "R" THEN {me} ELSE {} IN
        IF r.st = "B" THEN WithStarted(r, mine)
        ELSE WithStarted(SCaught(fdef.type, me, r), mine)
@@ -73,10 +73,11 @@ SComplete(C, F, rel, t, raw, path, ids) ==
      IF raw.r = "leaf" THEN SOk(raw.v) ELSE SFailAt(path, ids)
   ELSE
      IF raw.r # "obj" THEN SFailAt(path, ids)
-     ELSE IF raw.tn \notin DOMAIN Types THEN SFailAt(path, ids)
-     ELSE IF KindOf(raw.tn) # "OBJECT" \/ ~TypeApplies(raw.tn, Named(t)) THEN SFailAt(path, ids)
-     ELSE LET grouped == Collect(C, raw.tn, ids) IN
-          SSeqPhase(C, F, rel, raw.tn, grouped, path, raw.id, 1)
+     ELSE LET tn == RTOf(C, t, raw) IN
+          IF tn \notin DOMAIN Types THEN SFailAt(path, ids)
+          ELSE IF KindOf(tn) # "OBJECT" \/ ~TypeApplies(tn, Named(t)) THEN SFailAt(path, ids)
+          ELSE LET grouped == Collect(C, tn, ids) IN
+               SSeqPhase(C, F, rel, tn, grouped, path, raw.id, 1)
 
 \* list items from index i on
 SItems(C, F, rel, it, items, path, ids, i) ==
